@@ -579,6 +579,37 @@ def round_trip_conventions(ctx: Ctx):
            f"file name starts with the instance number: {leading}; zero-padded ({txt[:40]}{(':' + spec) if spec else ''}): {padded}" +
            ("" if leading and padded else " -- with ten or more instances the sorted directory listing is not the order of writing"),
            construct="fjsp.parser.write_one:name-padding")
+    # the pad width covers the whole set: a width that is a literal (4) stops sorting at 10**4 files -- the default validation set
+    # has 10 000 instances (F54).  The width expression is a name whose value `write` derives from the number of instances
+    # (len(instances) reaches it), or a literal of at least 7 digits.
+    wexpr = None
+    for c_ in ast.walk(first.value):
+        if isinstance(c_, ast.Call) and isinstance(c_.func, ast.Attribute) and c_.func.attr in ("rjust", "zfill") and c_.args:
+            wexpr = c_.args[0]
+    if wexpr is None and first.format_spec is not None:
+        for v_ in ast.walk(first.format_spec):
+            if isinstance(v_, ast.FormattedValue):
+                wexpr = v_.value
+    wide = False
+    whyw = "pad width not recognised"
+    if isinstance(wexpr, ast.Constant) and isinstance(wexpr.value, int):
+        wide = wexpr.value >= 7
+        whyw = f"literal width {wexpr.value}" + ("" if wide else f": the sorted listing breaks at 10**{wexpr.value} files")
+    elif isinstance(wexpr, ast.Name) and wexpr.id in fw.params():
+        wr = ctx.repo.get_function("rl4co/envs/scheduling/fjsp/parser.py", "write")
+        ctx.fn(wr)
+        kws = [k.value for c_ in ast.walk(wr.node) if isinstance(c_, ast.Call) for k in c_.keywords if k.arg == wexpr.id]
+        src = None
+        if len(kws) == 1:
+            src = kws[0]
+            if isinstance(src, ast.Name):
+                defs_ = [st.value for st in ast.walk(wr.node) if isinstance(st, ast.Assign) and isinstance(st.targets[0], ast.Name) and st.targets[0].id == src.id]
+                src = defs_[-1] if defs_ else None
+        txtw = ast.unparse(src) if src is not None else ""
+        inst = [p_ for p_ in wr.params() if p_ != "where"]
+        wide = src is not None and "len(str(len(" in txtw.replace(" ", "") and any(p_ in txtw for p_ in inst) and "min(" not in txtw
+        whyw = f"width = {txtw[:60]} handed over by write(): derived from the number of instances -- {wide}"
+    ctx.ob("C19.i", "fjsp.parser.write_one:pad-width-covers-the-set", wide, fw.loc, whyw, construct="fjsp.parser.write_one:pad-width")
     # (2)
     rc = ctx.repo.get_class("rl4co/models/rl/reinforce/reinforce.py", "REINFORCE")
     fm = rc.methods.get("set_decode_type_multistart")
